@@ -45,6 +45,8 @@ CONSTANTS
     MaxTasks,     \* bound on the number of pool tasks
     CbReads,      \* scripted callbacks call get_state() and report the value
     FineReg,      \* park also after the receive and before the reducers lock (run-time registration)
+    StopTimeouts, \* stop() may give up its two waits (the library's 3 s timeouts): it then returns "timeout"
+                  \* with the reducer loop still at work - which goes on to reduce everything accepted (C05)
     Defects       \* subset of {"F2","F3","F6"}: defects of the pinned tree that are modelled as such when listed.
                   \* All three are fixed in /repo (DESIGN.md 10.4), so the checks run with Defects = {}; listing one
                   \* brings the old behaviour back (e.g. to reproduce the counterexamples that led to the fixes).
@@ -107,7 +109,8 @@ SetOfSeq(seq) == {seq[i] : i \in 1..Len(seq)}
 Loc0 == [ip |-> 1, ch |-> "D", item |-> 0, sub |-> SubItem(<<>>, 0), sok |-> TRUE, ret |-> "-",
          a |-> 0, via |-> "-", us |-> "-", uret |-> "-", cont |-> "-", k |-> 1, i |-> 1,
          snap |-> <<>>, st |-> <<>>, before |-> <<>>, effs |-> <<>>, needD |-> TRUE,
-         needN |-> TRUE, redAct |-> TRUE, calls |-> 0, got |-> FALSE, tid |-> 0, ph |-> "-", snapUnsub |-> {}, ansv |-> "-"]
+         needN |-> TRUE, redAct |-> TRUE, calls |-> 0, got |-> FALSE, tid |-> 0, ph |-> "-", snapUnsub |-> {}, ansv |-> "-",
+         tmo |-> FALSE]
 
 M0 == [received |-> 0, dropped |-> 0, chDropped |-> 0, reduced |-> 0, effIssued |-> 0,
        mwExecuted |-> 0, notified |-> 0, subNotified |-> 0, errors |-> 0]
@@ -499,6 +502,10 @@ MSent(w) ==
 -----------------------------------------------------------------------------
 (* Client operations (pc "idle": between two public calls)                   *)
 
+PoolIdleW(w) == /\ w.pc["R"] = "exited"
+                /\ \A i \in 1..Len(w.tasks) : w.tasks[i].st = "done"
+StopRes(w, now) == IF L(w).tmo \/ now THEN "timeout" ELSE "ok"
+
 MClose(w) ==                 \* store_impl.rs:495-511 (guard: dispatch_tx lock free)
     IF w.chan["D"].open
     THEN StartSend([w EXCEPT !.chan["D"].open = FALSE, !.lk["tx"] = w.t], "D", EXIT, "close")
@@ -516,7 +523,7 @@ MStopPool(w) ==              \* stop / drop_store, store_impl.rs:519-527: take t
     IF w.pool = "present"
     THEN Park(AddNote([w EXCEPT !.pool = "taken", !.loc[w.t].got = TRUE], N("took", 1, <<>>)),
               "join", "stop.join", 0)
-    ELSE OpEnd(AddNote(w, N("took", 0, <<>>)), "ok")
+    ELSE OpEnd(AddNote(w, N("took", 0, <<>>)), StopRes(w, FALSE))
 
 MUnsubLocked(w, s, cont) ==  \* store_impl.rs:231-238, the subscribers lock is held by w.t
     \* retain() visits the list in order and calls on_unsubscribe for *every* entry that is this
@@ -538,7 +545,7 @@ MIdle(w) ==
                                   !.h.implRej = IF o.via \in {"impl", "store"} THEN @ + 1 ELSE @,
                                   !.h.ret = @ \cup {o.a}, !.h.res[o.a] = "Err"], "Err")
       [] o.op \in {"close", "stop", "drop_store"} ->
-            MClose([w EXCEPT !.loc[t].got = FALSE,
+            MClose([w EXCEPT !.loc[t].got = FALSE, !.loc[t].tmo = FALSE,
                              !.h.stopBegun = IF o.op = "close" THEN @ ELSE TRUE])
       [] o.op = "get_state" -> OpEnd([w EXCEPT !.h.reads = Append(@, w.state)], w.state)
       [] o.op = "metrics" -> OpEnd(w, MetricsView(w))
@@ -574,6 +581,7 @@ MIdle(w) ==
       [] o.op = "add_mw" -> OpEnd([w EXCEPT !.mws = Append(@, o.s)], "ok")            \* (guard: middlewares lock free)
       [] o.op = "signal" -> OpEnd([w EXCEPT !.sig = @ \cup {o.s}], "ok")      \* harness only
       [] o.op = "wait" -> OpEnd(w, "ok")                                      \* (guard: the signal is up)
+      [] o.op = "await_end" -> OpEnd(w, "ok")                                 \* (guard: the loop has ended)
       [] o.op = "task" -> OpEnd(Submit(w, "task", 0), "ok")                            \* dispatcher.rs:60-73
       [] o.op = "thunk" -> OpEnd(Submit(w, "thunk", o.a), "ok")                        \* dispatcher.rs:42-58
 
@@ -597,8 +605,8 @@ MUnsDone(w) ==               \* the unsubscribe closure returns: unlock
     THEN OpEnd([w1 EXCEPT !.chan[L(w).us].rx = FALSE], NoneOf(L(w).us))
     ELSE OpEnd([w1 EXCEPT !.h.unsubRet = IF o.op = "unsub" THEN @ \cup {o.s} ELSE @], "ok")
 
-MJoin(w) ==                  \* shutdown_join_timeout returned because the pool is idle (guard in CanLeave)
-    OpEnd([w EXCEPT !.h.stopRet = @ + 1], "ok")
+MJoin(w) ==                  \* shutdown_join_timeout returned: the pool is idle, or (StopTimeouts) the wait gave up
+    OpEnd([w EXCEPT !.h.stopRet = @ + 1], StopRes(w, ~PoolIdleW(w)))
 
 -----------------------------------------------------------------------------
 (* Workers: one thread name per task                                          *)
@@ -659,7 +667,8 @@ Micro(w) ==
       [] p = "sent"      -> MSent(w)
       [] p = "closed"    -> MClosed(w)
       [] p = "stop.chk"  -> MStopChk(w)
-      [] p = "stop.drain" -> Park(w, "stop.pool", "stop.pool", 0)      \* pool.join_timeout returned (guard: idle)
+      [] p = "stop.drain" -> Park([w EXCEPT !.loc[w.t].tmo = ~PoolIdleW(w)],    \* pool.join_timeout returned
+                                  "stop.pool", "stop.pool", 0)                   \* (guard: idle, or gave up)
       [] p = "stop.pool" -> MStopPool(w)
       [] p = "join"      -> MJoin(w)
       [] p = "sub.reg"   -> MSubReg(w)
@@ -736,11 +745,12 @@ CanLeave(t) ==
                  [] o.op \in {"add_sub", "iter", "unsub"} -> lk["subs"] = "-"
                  [] o.op = "next" -> chan[o.s].rx => chan[o.s].q # <<>>
                  [] o.op = "wait" -> o.s \in sig
+                 [] o.op = "await_end" -> pc["R"] = "exited"      \* harness only: until the reducer loop has ended
                  [] o.op = "add_reducer" -> lk["reds"] = "-"
                  [] o.op = "add_mw" -> lk["mws"] = "-"
                  [] OTHER -> TRUE
       [] p = "send" -> ChanPol(l.ch) = "block" /\ ~RxGone(chan, l.ch) => Len(chan[l.ch].q) < ChanCap(l.ch)
-      [] p \in {"join", "stop.drain"} -> PoolIdle
+      [] p \in {"join", "stop.drain"} -> PoolIdle \/ StopTimeouts
       [] p \in {"iter.end", "iter.drop", "sub.reg"} -> lk["subs"] = "-"
       [] p = "ctxdrop" -> lk[CtxLock(l.us)] = "-"
       [] p = "chjoin" -> pc[ChName(l.us)] = "exited"
